@@ -47,6 +47,14 @@ func VerifC17Name() {
 	dir := dirs[vrtChoice("dir", len(dirs))]
 	wd := root + "/w/" + dir
 	vrtDir(wd)
+	if vrtChoice("viaSymlink", 2) == 1 {
+		// the project directory the caller names is a symbolic link to a directory of another name: the name the
+		// caller uses counts
+		link := "ln" + dir
+		vrtSymlink(wd, root+"/links/"+link)
+		wd = root + "/links/" + link
+		dir = link
+	}
 	// name: in compose files
 	nameCase := vrtChoice("fileName", 6) // 0 none, 1 first file literal, 2 both files (last wins), 3 interpolated ${NV}, 4 / 5 in a later YAML document of the first file
 	fileName := ""
